@@ -485,7 +485,7 @@ class PSBTView:
         if annex is not None:
             h.update(hashes.sha256(compact.to_bytes(len(annex)) + annex))
         if sh == SIGHASH.SINGLE:
-            h.update(self.vout(input_index).serialize())
+            h.update(hashes.sha256(self.vout(input_index).serialize()))
         if script is not None:
             h.update(
                 hashes.tagged_hash(
